@@ -45,7 +45,7 @@ func setup4(args ...string) (handler.Handler4, error) {
 		if err != nil {
 			return Handler4, errors.New("expected a destination subnet, got: " + fields[0])
 		}
-		if route.Dest.IP.To4() == nil {
+		if len(route.Dest.IP) != net.IPv4len || len(route.Dest.Mask) != net.IPv4len {
 			return Handler4, errors.New("expected an IPv4 destination subnet, got: " + fields[0])
 		}
 
